@@ -82,7 +82,11 @@ class Report:
             per_fn.setdefault(r["contract"], 0)
             per_fn[r["contract"]] += len(r["records"])
             if r["error"]:
-                if "vacuous" in r["error"] or "no feasible path" in r["error"] or "checker exception" in r["error"]:
+                if "checker exception" in r["error"]:
+                    # typically a sidecar invariant naming a local that the edited function no longer has: structural
+                    # breakage is undecided (DESIGN 5.2), never a violation; the bounded tier still runs
+                    self.undecided.append(f"{r['contract']} case={r['case']}: contract no longer matches the code: {r['error']}")
+                elif "vacuous" in r["error"] or "no feasible path" in r["error"]:
                     self.errors.append(f"{r['contract']} case={r['case']}: {r['error']}")
                 else:
                     self.undecided.append(f"{r['contract']} case={r['case']}: {r['error']}")
